@@ -8,7 +8,7 @@ ID = "C05"
 OWN = ("obj",)
 
 TERMS = ["mayer_tf", "mayer_t0", "sum", "sum_last", "int_control", "integral", "integral_t", "integral_one",
-         "integral_pc", "integral_vc", "T", "tf", "vg", "pg", "int_T", "int_z"]
+         "integral_pc", "integral_pcq", "integral_vc", "T", "tf", "vg", "pg", "int_T", "int_z"]
 DIMS = dict(
     term1=["integral"] + [t for t in TERMS if t != "integral"],
     term2=["mayer_tf", "none", "same", "sum", "integral_t", "int_control"],
@@ -22,8 +22,8 @@ DIMS = dict(
     grid=["uniform", "geom", "function", "free", "uniform_lt0"],
     horizon=["fixed", "Tfree", "t0free", "Tparam"],
     state=["vec2", "scalar"],
-    pc=[None, "control", "control+"],
-    vc=[None, "control", "control+"],
+    pc=[None, "control", "control+", "both"],
+    vc=[None, "control", "control+", "both"],
 )
 
 
@@ -36,6 +36,7 @@ def finish(a):
     if t3 != "none": terms.append(t3)
     kw = dict(a)
     if "integral_pc" in terms and not kw["pc"]: kw["pc"] = "control"
+    if "integral_pcq" in terms: kw["pc"] = "both"
     if "integral_vc" in terms and not kw["vc"]: kw["vc"] = "control"
     if "vg" in terms: kw["vg"] = True
     if "pg" in terms: kw["pg"] = "scalar"
